@@ -38,7 +38,7 @@ def _what(kind, prev, ev, step):
 
 
 def run(ctx):
-    H.design_level(ctx)
+    H.design_level(ctx, which=ctx.pick(("_sub", "_iprpc"), ("", "_sub", "_stake", "_iprpc")))
     counts = dict(H.plan(ctx, "C10"))
     # bias: advance-purchase replacement / upgrades inside the payout window (renew), IPRPC months nobody served (iprpc)
     counts["renew"] = int(counts["renew"] * 1.3)
